@@ -18,21 +18,23 @@ fn opt_n(x: Option<u64>) -> String {
 pub fn run(args: &Args, sink: &mut Sink) {
     let mut rng = Rng::new(args.seed ^ 0xC33);
     let mut versions = boundary_versions();
-    for _ in 0..args.vol(600, 20000) {
+    for _ in 0..args.vol(600, 10000) {
         versions.push(rand_version(&mut rng, false));
     }
 
     // ---- std: Display for u64 and {:020}
     let mut s = Stream::new("fmt", REQ, "chk_fmt", "N", "name * name");
+    s.shard = 1000;
     for &v in &versions {
         let a = format!("{v}");
         let b = format!("{v:020}");
-        s.push(coq::n(v), coq::pair(&coq::str_bytes(&a), &coq::str_bytes(&b)), json!({"v": v, "dec": a, "pad20": b}));
+        s.push(coq::n(v), coq::pair(&nm(&a), &nm(&b)), json!({"v": v, "dec": a, "pad20": b}));
     }
     sink.add(s);
 
     // ---- manifest_path / is_detached_version
     let mut s = Stream::new("name", REQ, "chk_name", "N", "bool * name * name");
+    s.shard = 500;
     let base = Path::from("base");
     for &v in &versions {
         let det = is_detached_version(v);
@@ -99,7 +101,7 @@ pub fn run(args: &Args, sink: &mut Sink) {
         }
         s.push(
             coq::n(v),
-            format!("({}, {}, {})", coq::b(det), coq::str_bytes(&n1), coq::str_bytes(&n2)),
+            format!("({}, {}, {})", coq::b(det), nm(&n1), nm(&n2)),
             json!({"version": v, "detached": det, "v1_name": n1, "v2_name": n2}),
         );
     }
@@ -142,15 +144,16 @@ pub fn run(args: &Args, sink: &mut Sink) {
             strs.push(mutate(&mut rng, &format!("{v}")));
         }
     }
-    for _ in 0..args.vol(300, 5000) {
+    for _ in 0..args.vol(300, 4000) {
         let len = rng.below(26) as usize;
         strs.push((0..len).map(|_| (b'0' + rng.below(10) as u8) as char).collect());
     }
     let mut s = Stream::new("u64", REQ, "chk_parse_u64", "name", "option N");
+    s.shard = 1200;
     for st in &strs {
         let r = st.parse::<u64>().ok();
         sink.count(if r.is_some() { "u64:accepted" } else { "u64:rejected" });
-        s.push(coq::str_bytes(st), opt_n(r), json!({"string": st, "parsed": r}));
+        s.push(nm(st), opt_n(r), json!({"string": st, "parsed": r}));
     }
     sink.add(s);
 
@@ -173,24 +176,25 @@ pub fn run(args: &Args, sink: &mut Sink) {
     for &v in &versions {
         for sch in [V1, V2] {
             let n = fname(sch, v);
-            if rng.chance(1, 2) {
+            if rng.chance(1, 4) {
                 names.push(n.clone());
             }
             if rng.chance(1, 8) {
                 names.push(format!("{n}-{}", uuid(&mut rng)));
             }
-            if rng.chance(1, 3) {
+            if rng.chance(1, 5) {
                 names.push(mutate(&mut rng, &n));
             }
         }
     }
-    for _ in 0..args.vol(400, 8000) {
+    for _ in 0..args.vol(250, 5000) {
         names.push(adversarial_name(&mut rng));
         let sch = if rng.bool() { V1 } else { V2 };
         let j = realistic_junk(&mut rng, sch);
         names.push(if rng.chance(1, 3) { mutate(&mut rng, &j) } else { j });
     }
     let mut s = Stream::new("file", REQ, "chk_file", "name", "option N * option N * option N * N");
+    s.shard = 800;
     for n in &names {
         let p1 = V1.parse_version(n);
         let p2 = V2.parse_version(n);
@@ -209,7 +213,7 @@ pub fn run(args: &Args, sink: &mut Sink) {
             sink.oracle_fail(None, "V2 parse is not u64::MAX - V1 parse", json!({"name": n}));
         }
         s.push(
-            coq::str_bytes(n),
+            nm(n),
             format!("({}, {}, {}, {})", opt_n(p1), opt_n(p2), opt_n(det.map(scheme_n)), scheme_n(stg)),
             json!({"name": n, "v1_parse": p1, "v2_parse": p2, "detect": det.map(|d| format!("{d:?}")), "staging": format!("{stg:?}")}),
         );
